@@ -117,3 +117,60 @@ pub fn good_evict(queue: &mut Vec<(u32, u32)>, seen: &mut Vec<u32>, incoming: (u
         seen.retain(|k| *k != dropped.0);
     }
 }
+
+// ---- K2 must-pass with variant-sensitive reachability: `let m = if c {Some} else {None}; if let Some(x) = m {push}`
+pub fn push(_v: u32) {}
+
+pub fn good_tail_pushed(theirs: u32, ours: Option<u32>) {
+    let missing = match ours {
+        Some(o) => {
+            if theirs > o {
+                Some(o + 1)
+            } else {
+                None
+            }
+        }
+        None => Some(1),
+    };
+    if let Some(m) = missing {
+        push(m);
+    }
+}
+
+pub fn bad_tail_dropped(theirs: u32, ours: Option<u32>) {
+    let missing = match ours {
+        Some(o) => {
+            if theirs > o {
+                Some(o + 1)
+            } else {
+                None
+            }
+        }
+        None => None, // an actor we never heard of is not requested
+    };
+    if let Some(m) = missing {
+        push(m);
+    }
+}
+
+// ---- K2 loop exit only at exhaustion
+pub fn good_drain(it: &mut dyn Iterator<Item = u32>, out: &mut Vec<u32>) {
+    loop {
+        match it.next() {
+            None => break,
+            Some(v) => out.push(v),
+        }
+    }
+    push(out.len() as u32);
+}
+
+pub fn bad_drain_stops_early(it: &mut dyn Iterator<Item = u32>, out: &mut Vec<u32>, cap: u32) {
+    loop {
+        match it.next() {
+            None => break,
+            Some(v) if v > cap => break,
+            Some(v) => out.push(v),
+        }
+    }
+    push(out.len() as u32);
+}
